@@ -44,6 +44,7 @@ type Verifier struct {
 	abstractProducts bool
 	objN             int
 	fresh            int
+	specDepth        int // > 0 while a specification expression is reading a row of a functional nested slice
 	initMem          map[*Object]Value
 	initFacts        []*Term
 	constObjs        map[*Object]Value
@@ -821,6 +822,9 @@ func markWild(val Value) {
 
 // noteWrite: frame check for writes to entry objects.
 func (v *Verifier) noteWrite(fr *Frame, st *State, o *Object, path []PE) {
+	if o.UFrom != nil {
+		v.bumpU(st, o.UFrom)
+	}
 	if v.writeLog != nil {
 		v.writeLog[o] = true
 	}
@@ -1232,6 +1236,12 @@ func phiName(p *ssa.Phi) string {
 
 func (fr *Frame) havocObject(st *State, o *Object, label string) {
 	v := fr.v
+	if o.Unmodelled {
+		v.bumpU(st, o)
+	}
+	if o.UFrom != nil {
+		v.bumpU(st, o.UFrom)
+	}
 	if o.Unmodelled && len(st.uload) > 0 {
 		pre := fmt.Sprintf("%d|", o.ID)
 		for k := range st.uload {
